@@ -15,7 +15,7 @@ PROPERTY = "C04"
 LEVEL = "fault_enumeration"
 RULE = (
     "Event scripts over {T timeout, C connection error, E empty read, B busyRepeatRequest, P responsePending, S pending-then-silence "
-    "(silence lasts until the next transmission), M mismatching reply, X malformed reply, N negative final, F positive final}, one "
+    "(silence lasts until the next transmission), M mismatching reply, Q responsePending naming another service, X malformed reply, N negative final, F positive final}, one "
     "event per transport read, silence after the script; x client max_retry 0..3 x per-request UDSRequestConfig overrides "
     "(max_retry, timeout). All scripts of length <= 3 (quick) / <= 4 (thorough) x max_retry 0..3 enumerated exhaustively, "
     "Hypothesis scripts up to length 12 with overrides, plus long runs: k pendings then a final reply, endless pendings, "
@@ -33,9 +33,9 @@ ASSUMPTIONS = [
 
 REQ_DID = 0x1234
 REPLY = {"B": bytes([0x7F, 0x22, 0x21]), "P": bytes([0x7F, 0x22, 0x78]), "S": bytes([0x7F, 0x22, 0x78]),
-         "M": bytes([0x62, 0x99, 0x99, 0xAA]), "X": bytes([0x7F, 0x22, 0xEE]), "N": bytes([0x7F, 0x22, 0x31]),
+         "M": bytes([0x62, 0x99, 0x99, 0xAA]), "Q": bytes([0x7F, 0x31, 0x78]), "X": bytes([0x7F, 0x22, 0xEE]), "N": bytes([0x7F, 0x22, 0x31]),
          "F": bytes([0x62, 0x12, 0x34, 0xAA])}
-ALPHABET = "TCEBPSMXNF"
+ALPHABET = "TCEBPSMQXNF"
 
 
 class ScriptTransport:
@@ -46,28 +46,37 @@ class ScriptTransport:
         self.target = TargetURI("tcp-lines://192.0.2.9:1")
         self.is_closed = False
         self.script = list(script)
-        self.pos = 0
-        self.silent = False
         self.trace = trace
-        self.reconnects = 0
+        self.shared = {"reconnects": 0, "pos": 0, "silent": False}
+        self.dead = False
 
     def _t(self) -> float:
         return asyncio.get_event_loop().time()
 
+    @property
+    def reconnects(self) -> int:
+        return self.shared["reconnects"]
+
     async def write(self, data: bytes, timeout: float | None = None, tags: list[str] | None = None) -> int:
+        if self.dead:
+            self.trace.append(("write-on-obsolete-transport", self._t()))
+            raise BrokenPipeError("obsolete transport object used after reconnect")
         self.trace.append(("write", self._t()))
-        self.silent = False
+        self.shared["silent"] = False
         return len(data)
 
     async def read(self, timeout: float | None = None, tags: list[str] | None = None) -> bytes:
-        if self.silent or self.pos >= len(self.script):
+        if self.dead:
+            self.trace.append(("read-on-obsolete-transport", self._t()))
+            raise BrokenPipeError("obsolete transport object used after reconnect")
+        if self.shared["silent"] or self.shared["pos"] >= len(self.script):
             self.trace.append(("read:T", self._t()))
             if timeout is None:
                 await asyncio.sleep(1e9)
             await asyncio.sleep(timeout)
             raise TimeoutError("script: silence")
-        ev = self.script[self.pos]
-        self.pos += 1
+        ev = self.script[self.shared["pos"]]
+        self.shared["pos"] += 1
         self.trace.append((f"read:{ev}", self._t()))
         if ev == "T":
             if timeout is None:
@@ -79,7 +88,7 @@ class ScriptTransport:
         if ev == "E":
             return b""
         if ev == "S":
-            self.silent = True
+            self.shared["silent"] = True
         return REPLY[ev]
 
     async def request_unsafe(self, data: bytes, timeout: float | None = None, tags: list[str] | None = None) -> bytes:
@@ -93,9 +102,15 @@ class ScriptTransport:
         pass
 
     async def reconnect(self, timeout: float | None = None) -> "ScriptTransport":
-        self.reconnects += 1
+        """As BaseTransport.reconnect() documents: a NEW instance is returned, the old one is obsolete."""
         self.trace.append(("reconnect", self._t()))
-        return self
+        new = ScriptTransport.__new__(ScriptTransport)
+        new.__dict__.update(self.__dict__)
+        new.mutex = asyncio.Lock()
+        new.shared["reconnects"] += 1
+        self.dead = True
+        new.dead = False
+        return new
 
 
 def model(script: str, max_retry: int, timeout: float) -> dict[str, Any]:
@@ -136,7 +151,7 @@ def model(script: str, max_retry: int, timeout: float) -> dict[str, Any]:
                 bound += 0.2 * 2 ** i
                 rec += 1
             continue
-        if e == "M":
+        if e in "MQ":
             return dict(kind="raise", value="RequestResponseMismatch", cause=None, tx=tx, rec=rec, abstain=abstain, bound=bound)
         if e == "X":
             return dict(kind="raise", value="MalformedResponse", cause=None, tx=tx, rec=rec, abstain=abstain, bound=bound)
@@ -169,7 +184,7 @@ def model(script: str, max_retry: int, timeout: float) -> dict[str, Any]:
                     rec += 1
                 again = True
                 break
-            if e == "M":
+            if e in "MQ":
                 return dict(kind="raise", value="RequestResponseMismatch", cause=None, tx=tx, rec=rec, abstain=abstain, bound=bound)
             if e == "X":
                 return dict(kind="raise", value="MalformedResponse", cause=None, tx=tx, rec=rec, abstain=abstain, bound=bound)
@@ -229,6 +244,9 @@ def check(case: dict[str, Any]) -> list[tuple[str, str]]:
         return [(f"C04/unbounded/{r['status']}", f"{desc}: request did not finish ({r['status']}) after {r['dur']:.1f} virtual s, {tx} transmissions")]
     if r["dur"] > lim:
         out.append(("C04/too-slow", f"{desc}: took {r['dur']:.1f} virtual s, reference bound {lim:.1f}"))
+    if any(k.endswith("-on-obsolete-transport") for k, _ in r["trace"]):
+        out.append(("C04/obsolete-transport-used-after-reconnect", f"{desc}: {_tr(r['trace'])}"))
+        return out
     # ---- never more than max_retry+1 transmissions, no transmission while pending
     if tx > eff_retry + 1:
         out.append(("C04/too-many-transmissions", f"{desc}: {tx} transmissions, max_retry+1 = {eff_retry + 1}"))
